@@ -49,6 +49,11 @@ CLAIMED = {
    text="For templates with 2-3 input blocks whose queries overlap (same party, ref into the party's UTxOs, collateral) over a store with symbolic contents, the real resolve (one selector, ignore set, apply_inputs) is executed from MIR on every path and candidate order: z3-checked obligations show the bound sets pairwise disjoint, every resolved block non-empty, and the flattened input list of the real compile_inputs to contain each selected UTxO exactly once.",
    note="same store model and bounds as C03; block names concrete.",
    design="§3 C04"),
+ "C06": dict(
+   technique="symbolic execution of the MIR of the Composite/Apply traversals and of safe_apply_args (mirsym -> z3), one template per leaf position, independent structural walk as oracle",
+   text="For 53 template positions (every Tx field, every Expression container, every BuiltInOp / Coerce / CompilerOp operand, the fields of a nested input query, `fees` and inputs nested in expressions) the real find_params / find_queries report exactly the leaves an independent walk of the value tree finds, and after the real apply_args / apply_inputs / apply_fees (3 stage orders, symbolic argument and fee) and reduce the walk finds no unresolved parameter; safe_apply_args refuses with MissingTxArg naming a missing parameter exactly when a reported parameter is absent, for all 128 argument maps over 3 declared + 4 undeclared keys (presence symbolic).",
+   note="mirsym + std models; structure of each template concrete, values symbolic; depth <= 3.",
+   design="§3 C06"),
 }
 
 NA = {
